@@ -138,6 +138,15 @@ def run(chk, tier):
         if got is not None:
             expect(chk, "VN", V + "::" + acc, got, want, fn.where(), "VCP %s" % acc)
 
+    # ---- the two map-generation date-time accessors read their own date and time halfwords (the closed form is C08's)
+    from rules import c08
+    from nx import chrono_model as cm
+    evc = cm.evaluator(prog)
+    nd = 0
+    for acc in (c08.D + "rda_status_data::message::Message::bypass_map_generation_date_time",
+                c08.D + "rda_status_data::message::Message::clutter_filter_map_generation_date_time"):
+        nd += c08.accessor(chk, prog, evc, acc)
+    chk.floor("map-generation date-time accessors", nd, 2)
     # ---- alarm table
     got, fn = eval_or_blind(chk, ev, "VN", ALARM_FN, [P("code")])
     if got is not None:
